@@ -23,7 +23,7 @@ def repl_config(run, replay, thorough):
                 env={"VERIF_OUT": src}, cfg_text=RC.format(docs=4, steps=7, body="ACTION_CONSTRAINT ExportInteresting"), label="GEN_ReplConfig")
         if not os.path.exists(src):
             raise vlib.Infra("no replicator-configuration behaviours exported")
-    run.run_driver(binary, ["-beh", src, "-out", out] + ([] if replay else ["-budget", "900s" if thorough else "60s"]), timeout=4000)
+    run.run_driver(binary, ["-beh", src, "-out", out] + ([] if replay else ["-budget", "400s" if thorough else "60s"]), timeout=4000)
     r = json.load(open(out))
     if r.get("harness_errors"):
         raise vlib.Infra("replcfgrun: " + r["harness_errors"][0])
